@@ -38,16 +38,31 @@ _UPGRADE = None
 
 
 def upgrade_fn():
-    """to_20210209 from the working tree's utils/convert.py, without importing the module (it writes a log file at import)."""
+    """to_20210209 from the working tree's utils/convert.py, without importing the module (it configures logging and writes
+    a log file inside the repository at import time): the module's plain functions, plain imports and literal assignments are
+    executed, everything else (logging/daiquiri set-up, click commands) is left out."""
     global _UPGRADE
     if _UPGRADE is None:
         with open(srcroot.path("utils/convert.py"), encoding="utf-8") as f:
             tree = ast.parse(f.read())
-        fn = next((n for n in tree.body if isinstance(n, ast.FunctionDef) and n.name == "to_20210209"), None)
-        if fn is None:
+        keep = []
+        for n in tree.body:
+            if isinstance(n, (ast.Import, ast.ImportFrom)):
+                mods = [a.name for a in n.names] if isinstance(n, ast.Import) else [n.module or ""]
+                if not any(m.split(".")[0] in ("daiquiri", "click", "logging") for m in mods):
+                    keep.append(n)
+            elif isinstance(n, ast.FunctionDef) and not n.decorator_list:
+                keep.append(n)
+            elif isinstance(n, ast.Assign):
+                try:
+                    ast.literal_eval(n.value)
+                    keep.append(n)
+                except Exception:
+                    pass
+        ns = {"__name__": "verif_convert_extract"}
+        exec(compile(ast.Module(body=keep, type_ignores=[]), "utils/convert.py", "exec"), ns)
+        if "to_20210209" not in ns:
             raise LookupError("to_20210209 not found in utils/convert.py")
-        ns = {}
-        exec(compile(ast.Module(body=[fn], type_ignores=[]), "utils/convert.py", "exec"), ns)
         _UPGRADE = ns["to_20210209"]
     return _UPGRADE
 
